@@ -88,6 +88,20 @@ def demuxC (n : Nat) : Comb Unit (Nat × β) β where
 
 def demuxBad (n : Nat) (x : Nat × β) : Bool := !(x.1 < n)
 
+/-- the common shape of `Fanout`, `Unzip`, `DemuxVar`: all ports are readied / finalized in port
+    order (`ready_both!` evaluates every side), an item `x` makes port `j` receive `r x j` (if any),
+    in port order. Used to prove the three in one go (`fanout_eq_route` etc. in the Props file). -/
+def sendAll (r : α → Nat → Option β) (x : α) (i : Nat) : Nat → Prog β Unit
+  | 0 => ret ()
+  | n + 1 => match r x i with
+    | some y => snd i y (sendAll r x (i + 1) n)
+    | none => sendAll r x (i + 1) n
+
+def routeC (n : Nat) (r : α → Nat → Option β) : Comb Unit α β where
+  ready := fun _ => (readyAll 0 n).bind fun b => ret ((), b)
+  send := fun _ x => sendAll r x 0 n
+  fin := fun _ => (finAll 0 n).bind fun b => ret ((), b)
+
 /-! ### Accumulate (fold / reduce / sort states) -/
 
 inductive AccPhase (S β : Type) where
@@ -256,29 +270,22 @@ structure FmaSt (β : Type) where
   buffer : Option (Nat × Option β)
   resolved : Option β
 
+/-- `FilterMapAsync::poll_ready` -/
+def fmaReady (k : FmaSt β) : Prog β (FmaSt β × Bool) :=
+  match k.resolved with
+  | some out => rdy 0 fun b => if b then snd 0 out (ret (⟨k.buffer, none⟩, true)) else ret (k, false)
+  | none =>
+    match k.buffer with
+    | some (d + 1, out) => ret (⟨some (d, out), none⟩, false)
+    | some (0, some out) => rdy 0 fun b =>
+        if b then snd 0 out (ret (⟨none, none⟩, true)) else ret (⟨none, some out⟩, false)
+    | some (0, none) => ret (⟨none, none⟩, true)
+    | none => ret (k, true)
+
 def fmaC : Comb (FmaSt β) (Nat × Option β) β where
-  ready := fun k =>
-    match k.resolved with
-    | some out => rdy 0 fun b => if b then snd 0 out (ret (⟨k.buffer, none⟩, true)) else ret (k, false)
-    | none =>
-      match k.buffer with
-      | some (d + 1, out) => ret (⟨some (d, out), none⟩, false)
-      | some (0, some out) => rdy 0 fun b =>
-          if b then snd 0 out (ret (⟨none, none⟩, true)) else ret (⟨none, some out⟩, false)
-      | some (0, none) => ret (⟨none, none⟩, true)
-      | none => ret (k, true)
+  ready := fmaReady
   send := fun k x => ret { k with buffer := some x }
-  fin := fun k =>
-    -- same body as `ready`, then finalize
-    thenFin 0 (match k.resolved with
-    | some out => rdy 0 fun b => if b then snd 0 out (ret (⟨k.buffer, none⟩, true)) else ret (k, false)
-    | none =>
-      match k.buffer with
-      | some (d + 1, out) => ret (⟨some (d, out), none⟩, false)
-      | some (0, some out) => rdy 0 fun b =>
-          if b then snd 0 out (ret (⟨none, none⟩, true)) else ret (⟨none, some out⟩, false)
-      | some (0, none) => ret (⟨none, none⟩, true)
-      | none => ret (k, true))
+  fin := fun k => thenFin 0 (fmaReady k)
 
 /-! ### FlatMapStream / FlattenStream: `buffer = Some { stream, item }` -/
 
